@@ -135,6 +135,29 @@ impl<const N: usize> Chan for RingChan<N> {
     fn cancel_reserved(&self, token: usize) -> bool { self.0.try_unleak_slot_index_internal(token as u32) }
 }
 
+/// `FullSyncMove<u32, N>` through the MovePublisher / MoveSubscriber API (no reservation API on the full-sync movable channel)
+pub struct FullSyncRingChan<const N: usize>(pub reactive_mutiny::ogre_std::ogre_queues::full_sync::full_sync_move::FullSyncMove<u32, N>);
+impl<const N: usize> Chan for FullSyncRingChan<N> {
+    const CAP: usize = N; const ORDERED_RESERVATIONS: bool = false; const HAS_RESERVATIONS: bool = false;
+    fn make() -> Arc<Self> { Arc::new(FullSyncRingChan(MoveContainer::new())) }
+    fn send(&self, v: u32) -> bool {
+        match self.0.publish_movable(v) {
+            (Some(_), None) => true,
+            (None, Some(b)) => { assert!(b == v, "C01: a rejected payload must be handed back unchanged"); false }
+            _ => { assert!(false, "publish_movable answered neither accepted nor rejected"); false }
+        }
+    }
+    fn send_with(&self, v: u32) -> bool {
+        let before = unsafe { SETTER_CALLS };
+        match self.0.publish(|slot: &mut u32| { *slot = v; unsafe { SETTER_CALLS += 1; } }, || false, |_| {}) {
+            None => { assert!(unsafe { SETTER_CALLS } == before + 1, "C01: an accepted setter runs exactly once"); true }
+            Some(_) => { assert!(unsafe { SETTER_CALLS } == before, "C01: a rejected setter must be handed back un-invoked"); false }
+        }
+    }
+    fn recv(&self) -> Option<u32> { self.0.consume_movable() }
+    fn pending(&self) -> u32 { self.0.available_elements_count() as u32 }
+}
+
 macro_rules! zc_chan {
     ($name:ident, $ty:ident) => {
         /// zero-copy wrapper driven exactly the way the zero-copy Uni channels drive it
